@@ -37,7 +37,7 @@ fn main() {
         return;
     }
     // panics of the library under test are caught per case; keep the default hook quiet
-    std::panic::set_hook(Box::new(|_| {}));
+    install_panic_hook();
     let mut report = match fam::run(&family, &opts) {
         Some(r) => r,
         None => { eprintln!("unknown family {}", family); std::process::exit(2); }
@@ -52,7 +52,7 @@ fn main() {
 
 /// Re-run the `case` lines of a replay file on the implementation and on the model, print both.
 fn replay(path: &str, opts: &Opts) {
-    std::panic::set_hook(Box::new(|_| {}));
+    install_panic_hook();
     let v: serde_json::Value = serde_json::from_str(&std::fs::read_to_string(path).expect("replay file")).expect("json");
     let lines: Vec<String> = v["case"].as_array().map(|a| a.iter().filter_map(|x| x.as_str().map(|s| s.to_string())).collect()).unwrap_or_default();
     println!("replaying {} ({} lines): property={} signature={}", path, lines.len(), v["property"], v["signature"]);
